@@ -25,14 +25,14 @@ CHECKS = {
    note="Soundness only (completeness is C11's subject). Queries non-empty. Trusts the map model in harness/src/props/c05.rs."),
  "C09": dict(level="exploration", design="3/C09",
    technique="property-based testing: seeded proptest generators over shard contents with engineered truncated keys (extremes, clusters, up to 7 per prefix) and raw sorted tables with duplicate runs; oracle = the map model the shard was built from and a linear-scan model of the on-disk search; reader differential (seekable / streaming sync+async / minimal); thorough tier adds coverage-guided fuzzing: libFuzzer (cargo-fuzz) target sorted_search with the same oracle inside the target, fixed -runs in 8 processes, crash = shrunk replay + VIOLATION",
-   text="Generated shards (0..3000 files, 0..600 xorbs) are serialized and every key, same-prefix / neighbouring / random absent key, every scan and every reader is compared with the model maps; the interpolation search is separately compared with a linear scan on tables up to 6000 entries. Exploration because contents are unbounded; generators are built to cross the 256-entry read window and to collide prefixes.",
+   text="Generated shards (0..3000 files, 0..600 xorbs) are serialized and every key, same-prefix / neighbouring / random absent key, every scan and every reader is compared with the model maps; the interpolation search is separately compared with a linear scan on tables up to 6000 entries and with a binary search on tables of up to 200000 entries whose counts are biased to 2^16 and 2^k-1 / 2^k / 2^k+1. Exploration because contents are unbounded; generators are built to cross the 256-entry read window and to collide prefixes.",
    note="Contents are sets of distinct keys; at most 7 records per truncated prefix (documented lookup limit). Trusts the model in harness/src/gen/shard.rs."),
  "C10": dict(level="exploration", design="3/C10",
    technique="property-based testing: seeded proptest generators over overlapping shard pairs (shared files with incomparable flag sets, shared xorbs, prefix collisions) and directory histories of shard files; oracle = map-model union / difference and record-set invariants over consolidation; differential cursor / file / in-memory implementations",
    text="Set operations on generated pairs are compared record-for-record with a model union/difference, every output record is looked up through the rebuilt tables, tables and totals are recomputed; generated session directories are consolidated under generated thresholds and the record set, returned paths (named by content hash), deletions and untouched files are checked. Exploration over pairs/directories.",
    note="Inputs unkeyed; same file hash implies same segments; optional sections agree where both present. Threshold <= 64 MiB (the routine pre-allocates buffers of the threshold size)."),
  "C18": dict(level="exploration", design="3/C18",
-   technique="property-based testing: seeded proptest generators over shard contents x keys x include flags x validity; oracle = field-wise model of the keyed export with an independent HMAC, differential of shard managers over original vs exported shards (parts under different keys in one directory), expiry predicates over generated footers with clock margin",
+   technique="property-based testing: seeded proptest generators over shard contents x keys x include flags x validity; oracle = field-wise model of the keyed export with an independent HMAC, differential of shard managers over original vs exported shards (parts under different keys in one directory), including shards with a xorb of up to 70000 chunks queried around chunk 65535, expiry predicates over generated footers with clock margin",
    text="Every export is parsed and compared field-wise with the model (chunk hashes keyed by an independent keyed-BLAKE3, nothing else changed, tables iff requested and recomputed, footer key/timestamps/totals), manager answers to unkeyed queries must equal those over the original shards, and load/clean decisions are checked on both sides of both thresholds. Exploration over contents/keys/flags/timestamps.",
    note="Expiry cases keep 100 s margin around the wall clock. Manager differential uses universes with pairwise distinct chunk hashes (otherwise the truthful answer is not unique)."),
  "C01": dict(level="exploration", design="3/C01",
